@@ -227,16 +227,29 @@ func TestGobHashChild(t *testing.T) {
 		t.Skip("not a hash child")
 	}
 
-	for _, c := range strings.Split(spec, ",") {
+	// "+A,C": all values in ONE variadic GobRegister call; "A,C": one call per value.
+	oneCall := strings.HasPrefix(spec, "+")
+
+	var vals []interface{}
+
+	for _, c := range strings.Split(strings.TrimPrefix(spec, "+"), ",") {
 		switch c {
 		case "A":
-			cache.GobRegister(hashTA{})
+			vals = append(vals, hashTA{})
 		case "B":
-			cache.GobRegister(hashTB{})
+			vals = append(vals, hashTB{})
 		case "C":
-			cache.GobRegister(hashTC{})
+			vals = append(vals, hashTC{})
 		case "D":
-			cache.GobRegister(hashTD{})
+			vals = append(vals, hashTD{})
+		}
+	}
+
+	if oneCall {
+		cache.GobRegister(vals...)
+	} else {
+		for _, v := range vals {
+			cache.GobRegister(v)
 		}
 	}
 
@@ -293,7 +306,12 @@ func TestGobHashOrders(t *testing.T) {
 
 	for _, s := range specs {
 		cmd := exec.Command(os.Args[0], "-test.run", "^TestGobHashChild$", "-test.count=1") //nolint:gosec
-		cmd.Env = append(os.Environ(), "VERIF_TYPES="+strings.Join(s, ","), "VERIF_HASHCHILD=1")
+		spec := strings.Join(s, ",")
+		if rng.Intn(2) == 0 {
+			spec = "+" + spec
+		}
+
+		cmd.Env = append(os.Environ(), "VERIF_TYPES="+spec, "VERIF_HASHCHILD=1")
 
 		b, err := cmd.CombinedOutput()
 		if err != nil {
@@ -322,7 +340,7 @@ func TestGobHashOrders(t *testing.T) {
 
 		sort.Strings(names)
 
-		_ = enc.Encode(map[string]interface{}{"set": "{" + strings.Join(names, "") + "}", "hash": h, "order": strings.Join(s, ",")})
+		_ = enc.Encode(map[string]interface{}{"set": "{" + strings.Join(names, "") + "}", "hash": h, "order": spec})
 		res.Evaluations++
 	}
 }
